@@ -339,8 +339,15 @@ def conversion(ck: Check, info):
         stats["classes"] += 1
         for j in range(n_per):
             msg = protogen.random_message(pb, rng, p_set=[0.0, 1.0, 0.7, 0.5][j % 4])
-            # repeated scalar fields with REPEATED values (a list is a list, not a set)
+            # repeated scalar fields with REPEATED values (a list is a list, not a set); key/value maps with EMPTY values
             if j % 4 == 1:
+                for fd in pb.DESCRIPTOR.fields:
+                    if fd.is_repeated and fd.type == FD.TYPE_MESSAGE and {"key", "value"} <= set(fd.message_type.fields_by_name) \
+                            and fd.message_type.fields_by_name["value"].type == FD.TYPE_STRING:
+                        e_ = getattr(msg, fd.name).add()
+                        e_.key, e_.value = f"empty{j}", ""
+                        e2_ = getattr(msg, fd.name).add()
+                        e2_.key, e2_.value = "", "v"
                 for fd in pb.DESCRIPTOR.fields:
                     if fd.is_repeated and fd.type not in (FD.TYPE_MESSAGE,):
                         lst = getattr(msg, fd.name)
@@ -419,6 +426,12 @@ def conversion(ck: Check, info):
                     if list(mv) != list(wv):
                         ck.violation(f"list-field:{cname}.{f.name}", f"{cname}.from_pb changed the repeated field {f.name}: wire {list(wv)!r}, model "
                                      f"{list(mv)!r} (every element is kept, in order, repeats included)",
+                                     {"class": cname, "field": f.name, "payload": msg.SerializeToString().hex()})
+                if kind == "map" and fd.is_repeated and fd.type == FD.TYPE_MESSAGE:
+                    want_map = {e.key: e.value for e in wv}
+                    if dict(mv) != want_map:
+                        ck.violation(f"map-field:{cname}.{f.name}", f"{cname}.from_pb: the wire map {f.name} {want_map!r} became {dict(mv)!r} "
+                                     "(every entry is kept, empty values included)",
                                      {"class": cname, "field": f.name, "payload": msg.SerializeToString().hex()})
                 if kind.startswith("nestedlist:"):
                     if len(mv) != len(wv):
